@@ -593,6 +593,9 @@ def c16_base_cases(tier, seed):
             (['width %d' % w, 'nstr 1'], ['reserve 0 2', 'set 0 97', 'append_ch 0 1 98', 'append_ch 0 1 99',
                                           'append_ch 0 4 100', 'erase 0 1 18446744073709551615', 'resize 0 5',
                                           'find_str 0 0 97']),
+            # zero-size requests on strings that own no buffer yet / no longer
+            (['width %d' % w, 'nstr 2'], ['reserve 0 0', 'reserve 0 1', 'set 0 97', 'clear 0', 'reserve 0 0',
+                                          'append_ch 0 1 98', 'reserve 1 0', 'resize 1 0', 'compare 0 1', 'data 1']),
             (['width %d' % w, 'nstr 2'], ['set 0 97 98', 'set 1 99 100 101', 'insert 1 3 0', 'substr 1 2 9 0',
                                           'reserve 1 18446744073709551615', 'reserve 1 12', 'append 1 0',
                                           'compare 0 1', 'find 1 0 0']),
